@@ -7,26 +7,7 @@ mod c21;
 mod cjson;
 mod jsgen;
 
-/// Temporary directory for real git storage: on tmpfs when available (thousands of loose objects
-/// are written and removed per run), else the default temp dir.
-pub fn scratch_dir() -> std::io::Result<tempfile::TempDir> {
-    let shm = std::path::Path::new("/dev/shm");
-    if shm.is_dir() {
-        if let Ok(d) = tempfile::Builder::new().prefix("verif-enc-").tempdir_in(shm) {
-            return Ok(d);
-        }
-    }
-    tempfile::Builder::new().prefix("verif-enc-").tempdir()
-}
-
 fn main() {
-    // The workloads allocate and free multi-kilobyte documents at a high rate; keep glibc from
-    // returning the heap top to the kernel each time (brk thrashing dominated the wall time).
-    // SAFETY: mallopt is called once, before any other thread exists.
-    unsafe {
-        vcommon::libc::mallopt(vcommon::libc::M_TRIM_THRESHOLD, 1 << 30);
-        vcommon::libc::mallopt(vcommon::libc::M_TOP_PAD, 64 << 20);
-    }
     vcommon::install_panic_hook();
     let args = vcommon::Args::parse();
     match args.prop.as_str() {
